@@ -362,6 +362,7 @@ def check(chk):
     chk.ob("FLOW-6", "loader call sites examined", len(lv) >= 1, MV + ":1", nontrivial=False)
 
     expiry_restart_is_written(chk, repo)
+    setting_persisted_before_set(chk, repo)
 
     # ------------------------------------------------------------ OWN-16
     n_s = 0
@@ -373,6 +374,33 @@ def check(chk):
                (u.relpath, u.scope) == (DM, "DataManager._writing_thread") or u.relpath.startswith("mpf/commands/") or u.relpath.startswith("mpf/core/config_loader")
                or "config" in u.scope.lower() or u.relpath.startswith("mpf/wire/"), u.where(), construct=u.ident, text="FileManager.save in " + u.scope)
     chk.expect(n_s >= 2, "C15: FileManager.save call sites lost")
+
+
+def setting_persisted_before_set(chk, repo, rule="FLOW-6"):
+    """An operator setting reaches the disk with its first change: set_machine_var writes only variables that are marked persistent when it
+    runs, and configure_machine_var never writes - so SettingsController.set_setting_value marks the variable persistent *before* it sets
+    the value (or sets it with persist=True).  The other order leaves the first change of a setting in memory only: it is gone after the
+    next boot unless something else happens to be saved in between."""
+    f = repo.func("mpf/core/settings_controller.py", "SettingsController.set_setting_value")
+    chk.analysed(f)
+    cfg = f.cfg()
+    sets = [(n, c) for n, c in cfg.calls_named("set_machine_var")]
+    marks = [n.id for n, c in cfg.calls_named("configure_machine_var") if kwarg(c, "persist") is not None and const_value(kwarg(c, "persist")) is True]
+    chk.need(sets, rule, "set_setting_value stores the value in the setting's machine variable", f)
+    for n, c in sets:
+        own = kwarg(c, "persist") is not None and const_value(kwarg(c, "persist")) is True and not marks
+        ok = own or any(cfg.dominates(m, n.id) for m in marks)
+        chk.ob(rule, "a setting's variable is marked persistent before its value is set (the set is what writes it)", ok, f.where(c), construct=f.ident,
+               detail="configure_machine_var(persist=True) must come first: set_machine_var writes only what is persistent when it runs",
+               text="setting persisted before set")
+    wr = repo.func(MV, "MachineVariables.set_machine_var")
+    wcfg = wr.cfg()
+    w_ = [(n, c) for n, c in wcfg.calls_named("_write_machine_var_to_disk")]
+    cf_ = repo.func(MV, "MachineVariables.configure_machine_var")
+    chk.analysed(cf_)
+    writes_in_cfg = [c for c in cf_.calls() if call_attr(c) in ("_write_machine_var_to_disk", "save_all")]
+    chk.ob(rule, "the premise holds: set_machine_var writes, configure_machine_var does not", bool(w_) and not writes_in_cfg, wr.where(), construct=wr.ident,
+           text="who writes machine variables", nontrivial=False)
 
 
 def expiry_restart_is_written(chk, repo, rule="FLOW-6"):
@@ -399,6 +427,7 @@ def expiry_restart_is_written(chk, repo, rule="FLOW-6"):
 def battery():
     from sa.battery import M
     return [
+        M("setting marked persistent after it was set", "mpf/core/settings_controller.py", "        self.machine.variables.configure_machine_var(name=self._settings[setting_name].machine_var, persist=True)\n        self.machine.variables.set_machine_var(name=self._settings[setting_name].machine_var, value=value)", "        self.machine.variables.set_machine_var(name=self._settings[setting_name].machine_var, value=value)\n        self.machine.variables.configure_machine_var(name=self._settings[setting_name].machine_var, persist=True)", "FLOW-6"),
         M("busy flag without finally", FM, "        try:\n            ext = os.path.splitext(filename)[1]", "        if True:\n            ext = os.path.splitext(filename)[1]", "PAIR-16", also=[(FM, "        finally:\n            FileManager.is_busy = False", "        FileManager.is_busy = False")]),
         M("replace in finally", FM, "            # move temp file\n            os.replace(temp_file, filename)\n        finally:\n            FileManager.is_busy = False", "        finally:\n            os.replace(temp_file, filename)\n            FileManager.is_busy = False", "PAIR-17"),
         M("write in place", FM, "FileManager.file_interfaces[ext].save(temp_file, data)", "FileManager.file_interfaces[ext].save(filename, data)", "PAIR-17"),
